@@ -68,6 +68,42 @@ def judge(case):
             if st != "ok" or not core.bit_eq(q.value, pb.value * k):
                 v.append(core.viol("C14/linearity", "converting %r x 2^%d does not give 2^%d x the converted value" % (val, jexp, jexp)))
                 break
+    # history on ONE Permeance object: its owner reassigns the value, then the units; the caller edits a returned result; the same
+    # object is converted for another component - every answer must be the fresh-object answer
+    if not v and val > 0:
+        dig0 = (core.fhex(pb.value), core.fhex(pc.value))
+        other = U.make_component("X", mw * 2.37 + 1.0, (7.0, -1600.0, -40.0, "antoine"), (30.0, 0.1, 0.0, 0.0))  # same NAME, other molar mass
+
+        def snap(r):  # results are snapshotted at once: an identity conversion may return the source object itself
+            return (r[0], core.fhex(r[1].value), r[1].units, r[1].value) if r[0] == "ok" else (r[0], type(r[1]).__name__, None, r[1])
+
+        def fresh(value, units, to, co):
+            return snap(core.call(U.Permeance(value=value, units=units).convert, to_units=to, component=co))
+
+        def same(r1, r2):
+            return r1[:3] == r2[:3]
+        obj = U.Permeance(value=val, units=a)
+        core.call(obj.convert, to_units=b, component=comp)
+        steps = []
+        try:
+            obj.value = val * 3.0
+            r = core.call(obj.convert, to_units=b, component=comp)
+            steps.append(("value reassigned", snap(r), fresh(val * 3.0, a, b, comp)))
+            if r[0] == "ok" and r[1] is not obj:
+                r[1].value = 0.0  # the caller owns the returned object
+                steps.append(("returned result edited by the caller", snap(core.call(obj.convert, to_units=b, component=comp)), fresh(val * 3.0, a, b, comp)))
+            steps.append(("other component", snap(core.call(obj.convert, to_units=b, component=other)), fresh(val * 3.0, a, b, other)))
+            obj.units = c
+            steps.append(("units reassigned", snap(core.call(obj.convert, to_units=b, component=comp)), fresh(val * 3.0, c, b, comp)))
+        except (AttributeError, TypeError):
+            steps = []  # a frozen Permeance class is legitimate
+        for what, got, want in steps:
+            if not same(got, want):
+                v.append(core.viol("C14/stale_after_object_reuse", "%s -> %s on a Permeance object that was converted before (%s): %r, a fresh object gives %r" % (
+                    a, b, what, got[3], want[3])))
+                break
+        if (core.fhex(pb.value), core.fhex(pc.value)) != dig0:
+            v.append(core.viol("C14/earlier_result_changed", "results handed out earlier changed while the source object was re-used"))
     return core.result("converted", digest=core.digest_of([core.fhex(pb.value), core.fhex(pc.value)]), viol=v,
                        sample={"b": pb.value, "c": pc.value})
 
